@@ -57,8 +57,10 @@ def kf6(spec, problems):
     if "lf-leader-not-first" not in spec.tags:
         return None
     for p in problems:
+        # (payloads bound to the wrong operands also put one rank's coordinates where
+        # another's belong: coordinates outside the output's extent)
         if p.get("kind") not in ("exec-error", "value-mismatch", "differs-from-plain",
-                                 "output-structure"):
+                                 "output-structure", "output-coordinate-space"):
             return None
     return "KF-6"
 
